@@ -291,7 +291,7 @@ def _run(pid, tier, seed, prop, JOBS, root, t0):
     native_note = None
     if (aux_fail or errors or pre_err) and not violations and not pre_viol:
         camp = prop.get("campaign")
-        if camp and (aux_fail):
+        if camp:
             try:
                 r = camp(tier, seed, root)
                 native_note = r.get("text")
@@ -300,9 +300,16 @@ def _run(pid, tier, seed, prop, JOBS, root, t0):
             except ToolError as ex:
                 native_note = "native campaign could not run: %s" % ex
     os.makedirs(os.path.join(VERIF, "replays", pid), exist_ok=True)
-    for (jr, r, tr, vals) in violations:
+    seen_paths = {}
+    for (jr, r, tr, vals) in sorted(violations, key=lambda v: 0 if v[2] else 1):
         nm = re.sub(r"[^A-Za-z0-9_.-]", "_", jr.job["name"] + "__" + r["name"])
         path = os.path.join(VERIF, "replays", pid, nm + ".json")
+        if path in seen_paths:
+            seen_paths[path] += 1
+            continue
+        seen_paths[path] = 1
+        if len(seen_paths) > 12:
+            continue
         rep = {"property": pid, "job": jr.job["name"], "obligation": r["name"], "description": r["desc"],
                "source_line": "%s:%d" % (r["file"], r["line"]), "checker_cmd": jr.cmd, "witness": vals,
                "verifier_output": (tr or "")[-20000:], "native": None}
